@@ -50,7 +50,7 @@ func (Engine) Describe() simcore.Description {
 	return simcore.Description{
 		Real: []string{"full OsmosisApp: x/incentives keeper, msg server, epoch hook and querier; x/lockup msg server and end-blocker; x/epochs begin-blocker and its hook wrapper; x/protorev denom-pair routes and a real x/gamm balancer pool used to value rewards; bank, distribution (community pool); real BeginBlocker/EndBlocker of every module, IAVL commit per block, SDK gas metering"},
 		Stub: []string{"CometBFT (the simulator supplies header time/height and message order)", "ante/post handlers (sender taken as authenticated, no tx fees)", "the protorev route of the second reward denomination is removed/restored by the simulator through the protorev keeper (on a live chain only the protorev admin / daily pool update changes it)"},
-		Rule: "one run = 2-4 accounts (lock owners, gauge creators and reward receivers) + one liquidity provider, 2 lock denominations, lock durations 5s..1000s of which {10s,60s,300s} are lockable durations, a 60s distribution epoch, MinValueForDistribution in {0, 1, 2000, 2000000}uosmo, reward denominations uosmo / ufoo (valued through a 50:50 uosmo pool at price 1/3..3) / ubar (no route); steps are lock, begin-unlock (full/partial), set-reward-receiver (incl. a blocked module address), create-gauge (perpetual / 1-6 epochs, start now/past/future/at an epoch boundary, one or two reward denominations, amounts 1..1e10, invalid variants), add-to-gauge, advances past 1-4 epoch ends, small ticks, bursts of blocks up to a height divisible by 120, node restarts, route removal/restoration, with seeded out-of-gas / forced roll-back on the user messages; every block start and every message is checked against the reference.",
+		Rule: "one run = 2-4 accounts (lock owners, gauge creators and reward receivers) + one liquidity provider, 2 lock denominations, lock durations 5s..1000s of which {10s,60s,300s} are lockable durations, a 60s distribution epoch, MinValueForDistribution in {0, 1, 2000, 2000000}uosmo, reward denominations uosmo / ufoo (valued through a 50:50 uosmo pool at price 1/3..3) / ubar (no route); steps are lock, begin-unlock (full/partial), extend-lockup, set-reward-receiver (incl. a blocked module address), create-gauge (perpetual / 1-6 epochs, start now/past/future/at an epoch boundary, one or two reward denominations, amounts 1..1e10, invalid variants), add-to-gauge, advances past 1-4 epoch ends, small ticks, bursts of blocks up to a height divisible by 120, node restarts, route removal/restoration, with seeded out-of-gas / forced roll-back on the user messages; every block start and every message is checked against the reference.",
 		Assumptions: []string{
 			"qualifying locks of a by-duration gauge = every lock still stored by x/lockup (not yet returned to its owner) of the gauge's denomination whose duration is >= the gauge's duration, whether or not it has begun (or even completed) unlocking: x/incentives distributes to lockup's GetLocksLongerThanDurationDenom, which lists unlocking and not-unlocking locks, and the module README only speaks of 'locks which has more than specific duration'",
 			"a paying epoch of a gauge = a distribution-epoch end at which the gauge is active and at least one lock qualifies (amounts may still all be zero or below the minimum); epochs without any qualifying lock do not count and pay nothing",
